@@ -144,6 +144,14 @@ package influxql
 //@   ensures result != nil
 //@   ensures typeis(result, Identifier, StringValue, RegexValue, NumberValue, IntegerValue, BooleanValue, DurationValue, ErrorValue)
 //@   ensures [C07] @oneentry len(m) != 1 ==> istype(result, ErrorValue)
+// the single entry {kind: value} is bound as a value of that kind carrying exactly that value (k, v: the entry,
+// v after the json.Number conversion)
+//@   ensures [C07] @obj_ident (len(m) == 1 && (local(k) == "ident" || local(k) == "identifier") && istype(local(v), string)) ==> (istype(result, Identifier) && result.(Identifier) == local(v).(string))
+//@   ensures [C07] @obj_regex (len(m) == 1 && local(k) == "regex" && istype(local(v), string)) ==> (istype(result, RegexValue) && result.(RegexValue) == local(v).(string))
+//@   ensures [C07] @obj_string (len(m) == 1 && local(k) == "string" && istype(local(v), string)) ==> (istype(result, StringValue) && result.(StringValue) == local(v).(string))
+//@   ensures [C07] @obj_int (len(m) == 1 && (local(k) == "int" || local(k) == "integer") && istype(local(v), int64)) ==> (istype(result, IntegerValue) && result.(IntegerValue) == local(v).(int64))
+//@   ensures [C07] @obj_float (len(m) == 1 && (local(k) == "float" || local(k) == "number") && istype(local(v), float64)) ==> (istype(result, NumberValue) && result.(NumberValue) == local(v).(float64))
+//@   ensures [C07] @obj_duration (len(m) == 1 && local(k) == "duration" && istype(local(v), string)) ==> (istype(result, DurationValue) && result.(DurationValue) == local(v).(string))
 
 //@ func (*Parser).SetParams
 //@   props C07 C04
@@ -262,6 +270,7 @@ package influxql
 //@   props C07 C04
 //@   safety C04
 //@   modifies fresh
+//@   ensures result1 != nil ==> result0 == nil
 //@   ensures [C07] @kind result1 == nil ==> (istype(result0, int64) || istype(result0, float64))
 //@   ensures [C07] @integral (result1 == nil && !libcall("strings.Contains", string(v), ".")) ==> (istype(result0, int64) && result0.(int64) == nth(libcall("(encoding/json.Number).Int64", v), 0))
 //@   ensures [C07] @fraction (result1 == nil && libcall("strings.Contains", string(v), ".")) ==> (istype(result0, float64) && result0.(float64) == nth(libcall("(encoding/json.Number).Float64", v), 0))
